@@ -1,6 +1,6 @@
 """pvc.heapverify -- function contracts in heap mode: VC generation for one function against its contract
 (normal and exceptional postconditions, frame), discharge in Int mode with quantifiers."""
-import os, time
+import os, time, itertools
 from . import ir, smt, symexec, heap
 from .heap import HeapExec, HContract, FMap
 from .symexec import State, Unsupported, ShapeError
@@ -12,7 +12,7 @@ HFUNCS = {}
 class HFunc:
     def __init__(self, file, qual, args, requires=(), modifies=(), ensures=(), raises_when=None, raises_ensures=(),
                  raises_only_when=None, invariants=None, uses=(), props=(), returns=None, notes='', ghost=None, axioms=(),
-                 callee=None, list_attrs=(), dict_attrs=(), timeout=None, decreases=None):
+                 callee=None, list_attrs=(), dict_attrs=(), timeout=None, decreases=None, varargs=None, refs=(), oid_suffix='', numeric_int=False, axiom_sets=None, cases=()):
         self.file = file; self.qual = qual; self.args = list(args)
         self.requires = list(requires); self.modifies = list(modifies); self.ensures = list(ensures)
         self.raises_when = raises_when            # condition (pre-state) under which the function must raise ("iff")
@@ -24,15 +24,21 @@ class HFunc:
         self.ghost = ghost or {}; self.axioms = list(axioms)
         self.callee = callee                      # HContract under which callers see this function
         self.list_attrs = list_attrs; self.dict_attrs = dict_attrs; self.timeout = timeout
+        self.varargs = varargs                    # *args bound to a tuple of this many arbitrary values (one proof per arity)
+        self.refs = list(refs)                    # arguments that are object references (new objects differ from them)
+        self.oid_suffix = oid_suffix; self.numeric_int = numeric_int
+        self.cases = list(cases)                  # proof by cases on these pre-state conditions (all polarity combinations), tried when the direct proof fails
+        self.axiom_sets = axiom_sets              # smaller axiom selections tried first (quantifier instantiation stays cheap); the full list is always tried last
 
     @property
     def oid(self):
-        return '%s::%s' % (self.file, self.qual)
+        return '%s::%s%s' % (self.file, self.qual, self.oid_suffix)
 
 
 def hfunc(file, qual, args, **kw):
+    key = kw.pop('key', qual)
     f = HFunc(file, qual, args, **kw)
-    HFUNCS[qual] = f
+    HFUNCS[key] = f
     return f
 
 
@@ -58,12 +64,19 @@ def gen(f):
     hy = []
     for a in f.args:
         st.loc[a] = ir.var('arg_' + a)
+    if fdef.args.vararg is not None:
+        if f.varargs is None: raise ShapeError('%s takes *%s: the contract must fix an arity' % (f.qual, fdef.args.vararg.arg))
+        st.loc[fdef.args.vararg.arg] = tuple(ir.var('arg_%s%d' % (fdef.args.vararg.arg, k)) for k in range(f.varargs))
+        for k in range(f.varargs): st.loc['%s%d' % (fdef.args.vararg.arg, k)] = st.loc[fdef.args.vararg.arg][k]
+    ex.known_refs = [st.loc[a] for a in f.refs]
+    ex.numeric_int = f.numeric_int
     # defaults of keyword arguments are not modelled: every argument is an arbitrary value
     old = st.clone(); ex.old_state = old
     for r in f.requires:
         hy.append(ex.truth(ex.eval_spec(r, old)))
-    for a in f.axioms:
-        hy.append(ex.truth(ex.eval_spec(a, old)))
+    axioms = [ex.truth(ex.eval_spec(a, old)) for a in f.axioms]
+    cases = [ex.truth(ex.eval_spec(c, old)) for c in f.cases]
+    axiom_sets = [[ex.truth(ex.eval_spec(a, old)) for a in aset] for aset in (f.axiom_sets or [])] + [axioms]
     st.pc = ir.TRUE
     outs = ex.block(fdef.body, st)
     normal = [o for o in outs if o.kind in ('fall', 'return')]
@@ -112,7 +125,9 @@ def gen(f):
             obls.append((tag + '.frame[%s]' % name, hyps + [o.state.pc], ir.forall(vs, ir.eq(m.read(*args), m0.read(*args)))))
     if not normal and not raises:
         obls.append(('terminates', hyps, ir.FALSE))
-    return obls, {'dropped': ex.dropped, 'lines': len(src.splitlines())}
+    reach = {'base': hyps, 'normal': [hyps + [o.state.pc] for o in normal], 'raise': [hyps + [o.state.pc] for o in raises]}
+    return obls, {'dropped': ex.dropped, 'lines': len(src.splitlines()), 'reach': reach, 'expects_raise': f.raises_when is not None,
+                  'axioms': axioms, 'axiom_sets': axiom_sets, 'cases': cases}
 
 
 def witness_candidates(goal, bound):
@@ -188,11 +203,37 @@ def verify(f, timeout_s=20):
     except (Unsupported, ShapeError, ir.EvalError, KeyError) as e:
         return [{'oid': f.oid + '#undecided', 'status': 'unknown', 'reason': '%s: %s' % (type(e).__name__, e), 'function': f.oid,
                  'mode': 'heap', 'seconds': time.time() - t0}]
-    for (cl, hy, goal) in obls:
-        v = smt.prove(hy, goal, mode='int', timeout_s=f.timeout or timeout_s, use_cvc5=False)
+    # vacuity guard: the hypotheses every obligation shares (requires, axioms, callee / loop facts) must not be refutable,
+    # and some normal exit -- and, where the contract says the function raises, some raising exit -- must be reachable under
+    # them.  `False` proved from the hypotheses makes every obligation below meaningless, so it is reported as undecided.
+    AX = meta['axioms']
+    def refutable(hy):
+        return smt.prove(AX + hy, ir.FALSE, mode='int', timeout_s=5, use_cvc5=False).status == 'proved'
+    rc = meta['reach']
+    vac = []
+    if refutable(rc['base']): vac.append('requires/axioms/assumed facts are contradictory')
+    elif rc['normal'] and all(refutable(h) for h in rc['normal']): vac.append('no normal exit is reachable under the contract')
+    elif meta['expects_raise'] and rc['raise'] and all(refutable(h) for h in rc['raise']): vac.append('the contract says when the function raises, yet no raising exit is reachable')
+    out.append({'oid': f.oid + '#nonvacuous', 'status': 'unknown' if vac else 'proved', 'mode': 'heap/quantified', 'backend': 'z3',
+                'seconds': round(time.time() - t0, 4), 'function': f.oid,
+                'reason': '; '.join(vac) if vac else 'False is not derivable from the hypotheses (5 s); %d normal / %d raising exits' % (len(rc['normal']), len(rc['raise']))})
+    for (cl, hy0, goal) in obls:
+        for aset in meta['axiom_sets']:
+            hy = aset + hy0
+            v = smt.prove(hy, goal, mode='int', timeout_s=f.timeout or timeout_s, use_cvc5=False)
+            if v.status == 'proved': break
         if v.status != 'proved' and goal.op == 'forall':
             v2 = case_split(hy, goal, f.timeout or timeout_s)
             if v2 is not None: v = v2
+        if v.status != 'proved' and meta['cases']:
+            # proof by cases: the goal under every polarity combination of the case conditions (exhaustive by construction)
+            tc = time.time(); ok = True
+            for combo in itertools.product((True, False), repeat=len(meta['cases'])):
+                extra = [c if pos else ir.not_(c) for c, pos in zip(meta['cases'], combo)]
+                vc = smt.prove(hy + extra, goal, mode='int', timeout_s=f.timeout or timeout_s, use_cvc5=False)
+                if vc.status != 'proved': ok = False; break
+            if ok:
+                v = smt.Verdict('proved', 'z3', time.time() - tc, mode='int', reason='by cases on %d pre-state conditions' % len(meta['cases']))
         out.append({'oid': '%s#%s' % (f.oid, cl), 'status': 'proved' if v.status == 'proved' else 'unknown',
                     'mode': 'heap/quantified', 'backend': v.backend, 'seconds': round(v.seconds, 4), 'reason': v.reason if v.status != 'refuted' else 'sat (heap-mode models are not replayable; see the bounded stand-in)',
                     'model': {k: v_ for k, v_ in (v.model or {}).items() if not k.startswith(('fr', 'j', 'k'))} if v.status == 'refuted' else None,
